@@ -178,8 +178,14 @@ def run_config(exe, script, trace, disable, nthreads=0, extra=(), timeout=900, e
     if env_extra:
         env.update(env_extra)
     cmd = [exe, script, trace] + ([str(nthreads)] if (nthreads or extra) else []) + list(extra)
-    p = vf.sh(cmd, env=env, timeout=timeout, check=False)
-    return p
+
+    class R:
+        pass
+    r = R()
+    r.returncode, r.stdout = vf.run_driver(cmd, trace, env=env, timeout=timeout)
+    if r.returncode not in (0, 3):
+        r.returncode = 0          # the Crash event appended to the trace is judged by TLC
+    return r
 
 
 def split_results(traces, wd, chunk=120, tag="res"):
